@@ -41,7 +41,7 @@ PLAIN_OPS = ["new_sec", "new_prop", "new_sec_parent", "new_prop_parent", "create
 TARGETED_OPS = ["x_clash_append", "x_clash_parent", "x_clash_insert", "x_clash_rename",
                 "x_clash_setitem", "x_cycle_parent", "x_cycle_append", "x_attached_append",
                 "x_attached_insert", "x_extend_dup", "x_ctor_bad_card", "x_ctor_clash",
-                "x_setitem_own", "x_reorder_neg", "x_clash_create", "x_extend_clash"]
+                "x_setitem_own", "x_reorder_neg", "x_clash_create", "x_extend_clash", "x_insert_badpos"]
 
 STEP = st.tuples(st.sampled_from(PLAIN_OPS + TARGETED_OPS),
                  st.integers(0, 40), st.integers(0, 40), st.integers(-8, 10),
@@ -233,8 +233,13 @@ class Engine(object):
             info["must_refuse"] = self.would_clash(cont, obj)
             self._classify_attach(info, cont, obj)
             call(lambda: cont.append(obj))
-        elif op in ("insert", "x_clash_insert", "x_attached_insert"):
-            cont, obj = self._dest_and_obj(op.replace("insert", "append"), a, b)
+        elif op in ("insert", "x_clash_insert", "x_attached_insert", "x_insert_badpos"):
+            cont, obj = self._dest_and_obj("x_attached_append" if op == "x_insert_badpos"
+                                           else op.replace("insert", "append"), a, b)
+            if op == "x_insert_badpos":
+                # a position that is no index: the list itself refuses it, after all odML checks passed
+                c = [None, "0", 1.5, "first"][c % 4]
+                info["cls"].append("insert:position_not_an_index")
             if cont is None or kind(cont) not in ("doc", "sec"):
                 info["skipped"] = True
                 return info
